@@ -671,7 +671,7 @@ def run(ctx):
         raise MachineryError("vacuous: no history with a detached HEAD")
 
     # ---------------------------------------------------------------- 2. replay against the real binary
-    budget = int(os.environ.get("VERIF_C20_MAX", "0")) or (12000 if thorough else 1800)
+    budget = int(os.environ.get("VERIF_C20_MAX", "0")) or (12000 if thorough else 1500)
     order = list(range(len(cases)))
     if len(order) > budget:
         # always replayed: short histories, the long simulated ones, and every history whose last invocation the
